@@ -1495,8 +1495,13 @@ func (r *Raft) appendEntries(rpc RPC, a *AppendEntriesRequest) {
 		lastIdx, lastTerm := r.getLastEntry()
 
 		var prevLogTerm uint64
+		lastSnapIdx, lastSnapTerm := r.getLastSnapshot()
 		if a.PrevLogEntry == lastIdx {
 			prevLogTerm = lastTerm
+		} else if a.PrevLogEntry == lastSnapIdx {
+			// The entry itself may be compacted away while the log
+			// continues past the snapshot.
+			prevLogTerm = lastSnapTerm
 		} else {
 			var prevLog Log
 			if err := r.logs.GetLog(a.PrevLogEntry, &prevLog); err != nil {
